@@ -150,6 +150,9 @@ func (w *Worker) Stage(name, bounds string, body func()) {
 // Outer enumerates the outer (program) level of space `space` (which must start with the
 // stage name). body is called once per complete outer choice sequence.
 func (w *Worker) Outer(space string, budget int, body func(o *Explorer)) {
+	if w.curStage != nil && !strings.HasPrefix(space, w.curStage.Name+"/") {
+		panic("mc: space " + space + " does not start with its stage name " + w.curStage.Name + "/ (replay would skip it)")
+	}
 	w.curSpace = space
 	if w.replay != nil {
 		if w.replay.Space != space {
